@@ -40,6 +40,57 @@ CHECKS = {
              "completeness test is covered under C08's harness.",
         technique="TLA+ spec + TLC enumeration of interval sequences replayed on the real reassembly code; TLC-judged records of real fragments",
     ),
+    "C01": dict(
+        category="model_checking",
+        text="Valid.tla enumerates families of abstract bundles (all admissible flag combinations, all subsets of the eight registered block "
+             "types plus an unknown one, CRC choices per block, every integer field at every CBOR width boundary, payload lengths around "
+             "23/24 and 255/256, endpoint forms) and Wire.tla encodes each independently (CBOR heads, CRC-16/X-25, CRC-32C in TLA+). The "
+             "harness builds each through the public API, checks parse(serialise(b)) = b field by field, byte-stable re-serialisation, "
+             "determinism, and that the specification's own encoding parses to the same value and re-serialises acceptably. Weaker than a "
+             "fuzzer on 'all accepted byte strings' (stated in DESIGN.md section 7).",
+        design_ref="DESIGN.md section 6 C01, section 7",
+        note="Trusted: TLC, the harness mapping from abstract bundle to API calls. Not covered: coverage-guided discovery of accepted inputs, payloads >= 2^32.",
+        technique="TLA+ wire-format specification evaluated by TLC as generator and independent encoder; round-trip replay on the real codec",
+    ),
+    "C02": dict(
+        category="model_checking",
+        text="Valid.tla states each structural rule as an operator over the projection of a parsed bundle and generates rule-breaking "
+             "mutants (20 mutations, singly and in pairs, thorough: triples) encoded with correct CRCs by Wire.tla; the real parser's verdict "
+             "and projection are recorded and TLC judges accepted => IsValidBundle. Bundles returned by Builder programs, BuildFromMap maps, "
+             "Fragment and ReassembleFragments are recorded and judged valid and re-parsable.",
+        design_ref="DESIGN.md section 6 C02",
+        note="Trusted: TLC, projection code of the harness. Node-generated bundles are validated in the Core replays. Lifetime boundary avoided on purpose.",
+        technique="TLA+ rule operators + TLC-generated rule-violating encodings; TLC judgement of recorded parser verdicts (trace validation of a pure function)",
+    ),
+    "C03": dict(
+        category="model_checking",
+        text="Wire.tla defines both CRCs from their polynomials and an independent CBOR delimiter; TLC recomputes every CRC of every recorded real "
+             "serialisation; the harness applies every single-bit flip and seeded bursts (<= CRC width, inside one block) and every mutant the "
+             "real parser accepts is judged by TLC (accepted with a wrong declared CRC = violation).",
+        design_ref="DESIGN.md section 6 C03",
+        note="Trusted: TLC, Bitwise module, block boundaries for burst generation from the real serialiser. Exhaustive over bit positions of the generated bundles.",
+        technique="TLA+ CRC and delimiter definitions evaluated by TLC over recorded serialisations and accepted corruptions",
+    ),
+    "C11": dict(
+        category="model_checking",
+        text="Tcpcl.tla models sender goroutine, wire, peer handler, acknowledgements and Send's main loop for concurrent transfers; TLC checks "
+             "segment size, flags, success=>delivered, exactly-once and termination for all L<=6(8), m<=8(10), four peer faults. The segment "
+             "function is replayed on the real NextSegment for all L<=60(200) x 1<=m<=L+2; executions of two real TransferManagers through a "
+             "recording fault-injecting relay are validated event by event by TcpclTrace.tla (every event must be an enabled action).",
+        design_ref="DESIGN.md section 6 C11",
+        note="Trusted: TLC, relay harness (orders refusals behind outstanding acks). TCP/WebSocket framing by the repository's TestImplNetwork only.",
+        technique="TLA+ protocol spec model-checked by TLC; replay of its segment function; trace validation of real TransferManager executions",
+    ),
+    "C12": dict(
+        category="model_checking",
+        text="Mtcp.tla (framed stream with keep-alives and cuts) and Bbc.tla (receiver table over arbitrary fragment sequences of two trains) are "
+             "model-checked; every Mtcp writer program and every fragment sequence of length K is replayed on the real MTCPServer (loopback) / "
+             "BBC Connector receive path comparing hand-ups and failure signals; real fragment trains and every single drop/dup/swap are "
+             "recorded and judged by TLC; client sends on a failing connection likewise.",
+        design_ref="DESIGN.md section 6 C12",
+        note="Two BBC cases are protocol-inherent known findings (lost last fragment, duplicated single-fragment transmission). MTCP client failure via in-memory connection.",
+        technique="TLA+ specs + TLC enumeration replayed on real MTCP server / BBC receiver; TLC-judged records of real trains under single faults",
+    ),
 }
 
 NOT_YET = "machinery for this property is not built yet in this revision (planned in DESIGN.md section 6)"
